@@ -1,6 +1,7 @@
 import SeqVerif.Base.Proto
 import SeqVerif.Model.ProxyFrac
 import SeqVerif.Model.ActiveConc
+import SeqVerif.Model.C07Cfg
 /-!
 Driver for C07 (trace validation: is the logged sequence of critical sections a path of the Lean transition system,
 and does the system predict what the implementation answered).
@@ -47,10 +48,10 @@ def cmd (arg : String) : String :=
   match (splitList arg).mapM label? with
   | none => "bad-op"
   | some tr =>
-    match firstBad init tr 0 with
+    match firstBad SV.C07.fx init tr 0 with
     | some i => s!"err step {i}"
     | none =>
-      match run init tr with
+      match run SV.C07.fx init tr with
       | some s => "ok " ++ fmt s
       | none => "err step ?"
 
@@ -122,7 +123,7 @@ def obs (s s' : St) : Label → Nat
 def runObs : St → List Label → Nat → List Nat → Except Nat (St × List Nat)
   | s, [], _, acc => .ok (s, acc.reverse)
   | s, l :: ls, k, acc =>
-    match step s l with
+    match step SV.C07.cfg s l with
     | some s' => runObs s' ls (k + 1) (obs s s' l :: acc)
     | none => .error k
 
